@@ -37,15 +37,27 @@ func ParseYamlInDir(path string, namespaceName string) (*Namespace, error) {
 	var paths []string
 
 	if fileInfo.IsDir() {
-		err := filepath.Walk(path,
-			func(path string, info os.FileInfo, err error) error {
+		// Walk does not follow a symbolic link, not even when the link is the directory to walk:
+		// a package directory reached through a link looked empty (and every model valid).
+		root, err := filepath.EvalSymlinks(path)
+		if err != nil {
+			return nil, err
+		}
+
+		err = filepath.Walk(root,
+			func(walked string, info os.FileInfo, err error) error {
 				if err != nil {
 					return err
 				}
 				if !info.IsDir() &&
 					(strings.HasSuffix(info.Name(), ".yml") || strings.HasSuffix(info.Name(), ".yaml")) &&
 					info.Name() != packaging.PackageFileName {
-					paths = append(paths, path)
+					// name the file the way the directory was given
+					rel, relErr := filepath.Rel(root, walked)
+					if relErr != nil {
+						return relErr
+					}
+					paths = append(paths, filepath.Join(path, rel))
 				}
 				return nil
 			})
